@@ -1144,3 +1144,30 @@ pub fn bad_div_changed_after_ne(n: i32, mut d: i32) -> i32 {
         0
     }
 }
+
+// ---- return facts that relate a payload component to an integer parameter -----------------------------------------------
+
+fn checked_inclusive_range(ends: &[u16], ix: usize, n: usize) -> Option<(usize, usize)> {
+    if ix >= ends.len() {
+        return None;
+    }
+    let start = if ix > 0 { ends[ix - 1] as usize + 1 } else { 0 };
+    let end = ends[ix] as usize;
+    if end < start || end >= n {
+        return None;
+    }
+    Some((start, end))
+}
+
+pub fn good_range_from_helper(points: &[u32], ends: &[u16], ix: usize) -> Option<u32> {
+    let (start, end) = checked_inclusive_range(ends, ix, points.len())?;
+    let s = &points[start..=end];
+    s.first().copied()
+}
+
+// the helper was told the length of a different slice
+pub fn bad_range_from_helper_other_len(points: &[u32], other: &[u32], ends: &[u16], ix: usize) -> Option<u32> {
+    let (start, end) = checked_inclusive_range(ends, ix, other.len())?;
+    let s = &points[start..=end];
+    s.first().copied()
+}
